@@ -55,6 +55,10 @@ class FakeProc:
     def kill(self):
         self.backend._kill_after(self.trial_id)
 
+    # whatever signal the backend sends, the scripted worker is gone after its `late` further reports; that a
+    # real worker is really gone after pause_trial is checked with real processes (drivers/c02.py realproc_cases)
+    terminate = kill
+
 
 class FakeProcLocalBackend(LocalBackend):
     """The real LocalBackend (fetch_status_results, start/resume/pause/stop_trial of TrialBackend;
@@ -382,3 +386,26 @@ class ScriptedScheduler(TrialScheduler):
 
     def metric_mode(self):
         return "min"
+
+
+from syne_tune.results_callback import ExtraResultsComposer
+
+
+class ScriptedComposer(ExtraResultsComposer):
+    """extra columns for the results log; per its API it may return None ("nothing to append")"""
+
+    def __init__(self, mode, backend=None):
+        self.mode, self.backend, self.ncalls = mode, backend, 0
+
+    def __call__(self, tuner):
+        self.ncalls += 1
+        if self.mode == "none_always":
+            return None
+        if self.mode == "none_odd" and self.ncalls % 2 == 1:
+            return None
+        if self.mode == "none_until_completion" and tuner.tuning_status.num_trials_completed == 0:
+            return None
+        return {"extra_calls": self.ncalls}
+
+    def keys(self):
+        return ["extra_calls"]
